@@ -258,6 +258,23 @@ func checkProof(orig []h.Row, proof []h.Row) string {
 	if r := walk(child, 0); r != "" {
 		return r
 	}
+	// the library's own accessors and decoder of the proof cell report what the cell commits to
+	{
+		pc := h.BuildCells(proof)[0]
+		mr, err := pc.GetMerkleRoot()
+		if err != nil || !bytes.Equal(mr[:], so.Hash(0, 0)) {
+			return "FAIL GetMerkleRoot-is-not-the-original-root-hash"
+		}
+		pc.ResetCounters()
+		var mp tlb.MerkleProof[tlb.Any]
+		if err := tlb.Unmarshal(pc, &mp); err != nil {
+			if proof[child].Ty != 2 { // a library cell as virtual root needs a resolver
+				return "FAIL tlb.MerkleProof-does-not-decode-the-proof"
+			}
+		} else if !bytes.Equal(mp.VirtualHash[:], so.Hash(0, 0)) || int(mp.Depth) != so.Depth(0, 0) {
+			return "FAIL tlb.MerkleProof-virtual-hash-or-depth-differs-from-the-original-root"
+		}
+	}
 	// the real code's hash of the parsed proof agrees with the definition (C02 on cells made by the proof builder)
 	cs := h.BuildCells(proof)
 	hs, ds, err := boc.VerifHashLevels(cs[0])
